@@ -89,6 +89,7 @@ type srcFile struct {
 	ifaces  []*Iface
 	locals  []*Decl
 	blank   []*Pkg
+	header  string // comments in front of the package clause
 }
 
 // Iface is an interface of the source package that may be mocked.
@@ -167,7 +168,7 @@ func (g *G) excluded(id string) bool {
 
 var depDirPool = []string{"multivendor/api", "a/x", "b/x", "a/b/x", "c/a/b/x", "dep", "lib/dep", "util", "pkg/util", "x/v2", "x", "models", "api/models",
 	"db/models", "one", "two", "three", "a/one", "b/one"}
-var depDirConflict = []string{"multivendor/api", "xvendor/dep", "a/x", "b/x", "a/b/x", "c/b/x", "c/a/b/x", "d/c/a/b/x", "b-c/x", "bc/x", "go-x", "x", "x-go", "x_y", "xy", "x.v2", "x/v2", "y/v2",
+var depDirConflict = []string{"3rdparty/x", "2fa/api", "lib-go", "go-lib", "lib", "multivendor/api", "xvendor/dep", "a/x", "b/x", "a/b/x", "c/b/x", "c/a/b/x", "d/c/a/b/x", "b-c/x", "bc/x", "go-x", "x", "x-go", "x_y", "xy", "x.v2", "x/v2", "y/v2",
 	"yaml.v3", "k8s.io/api", "api", "v1/api", "v2/api", "sync", "my/sync", "io", "my/io", "context", "my/context", "errors", "time",
 	"my/time", "template", "my/template", "rand", "http", "my/http", "a/http", "b/http", "1x", "type", "a/type", "go/ast", "url"}
 
@@ -186,6 +187,10 @@ func pkgNameForDir(dir string) string {
 		return "onex"
 	case base == "type":
 		return "typ"
+	case base == "go-x" || base == "x-go":
+		return "x" // same package name, paths equal after sanitising
+	case base == "lib-go" || base == "go-lib":
+		return "lib"
 	}
 	r := strings.NewReplacer("-", "", ".", "", "_", "")
 	return r.Replace(base)
@@ -1502,6 +1507,20 @@ func (g *G) assignFiles() {
 	for i := 0; i < nf; i++ {
 		g.files = append(g.files, &srcFile{Name: names[i], Imports: map[*Pkg]string{}})
 	}
+	for _, f := range g.files {
+		if g.Chance(25) {
+			f.header = g.Pick([]string{
+				"//\n// Package doc in the bare-slash style.\n//\n",
+				"// Copyright (c) someone.\n\n",
+				"/* block comment header */\n\n",
+				"// Code generated by protoc-gen-go. DO NOT EDIT.\n// source: thing.proto\n\n",
+				"//go:build !ignore_this_file\n\n",
+				"//\n",
+				"// x\n",
+			})
+			g.label("src:header-comment")
+		}
+	}
 	for _, it := range g.ifaces {
 		f := g.files[g.Int(0, nf-1)]
 		f.ifaces = append(f.ifaces, it)
@@ -1639,6 +1658,7 @@ func (g *G) assignFiles() {
 
 func (g *G) renderSrcFile(f *srcFile) string {
 	var b strings.Builder
+	b.WriteString(f.header)
 	fmt.Fprintf(&b, "package %s\n\n", g.src.Name)
 	if len(f.order)+len(f.blank) > 0 {
 		b.WriteString("import (\n")
